@@ -161,6 +161,22 @@ mod verif_c10 {
         assert!(ra.is_ok() == rd.is_ok(), "skip_ws_to_eol: different verdicts");
         assert!(same_rest(&a, &d), "skip_ws_to_eol: different remaining input");
     }
+    // the same with one character behind the '#'
+    #[kani::proof]
+    #[kani::unwind(8)]
+    fn c10_str_ws_eol_comment1() {
+        let t: u8 = kani::any();
+        kani::assume(matches!(t, b' ' | b'#' | b'\n' | b'\r' | b'a' | 0));
+        let buf: [u8; 3] = [b' ', b'#', t];
+        let s = unsafe { core::str::from_utf8_unchecked(&buf) };
+        let mut a = StrInput::new(s);
+        let mut d = D(StrInput::new(s));
+        let (na, ra) = a.skip_ws_to_eol(SkipTabs::Yes);
+        let (nd, rd) = d.skip_ws_to_eol(SkipTabs::Yes);
+        assert!(na == nd, "skip_ws_to_eol: different counts");
+        assert!(ra.is_ok() == rd.is_ok(), "skip_ws_to_eol: different verdicts");
+        assert!(same_rest(&a, &d), "skip_ws_to_eol: different remaining input");
+    }
     ws_diff!(c10_str_ws_eol_len2, c10_str_blank_len2, 2, 7);
     ws_diff!(c10_str_ws_eol_len3, c10_str_blank_len3, 3, 8);
     ws_diff!(c10_str_ws_eol_len4, c10_str_blank_len4, 4, 9);
